@@ -24,7 +24,7 @@ CHECKS = {
  "C07": ("proof", "Lean 4 naturality theorems (alg (map f) = mapItems f . alg) for 15 algorithms, injective-renaming naturality and list-vs-named equality of the sum vector (ckkF_list_dict_sums, snp_list_dict_sums, rnpF_list_dict_sums) for CKK/SNP/RNP + validity theorems generic in the value function + correspondence across the six input formats and numpy arrays of narrow / unsigned integer types",
          "Full for the fold-shaped algorithms, KK, CG, CBLDM, DP (any renaming, so repeated values in list input are covered); for CKK and SNP full as well (equivariance under injective renamings + equality of the whole sum vector with the run on the bare values; for CKK after fix F11, the statement was false before); for RNP (k <= 5) by RNPDict.rnpF_list_dict_sums; each case is presented as list, numpy array, dict (string and integer names) and names+valueof and compared strictly with the model; numpy arrays of 8- / 16- / 32- / 64-bit signed and unsigned integers give the sums of the plain list (after fix F13: arrays are normalised at the adaptor; before it multifit, dp, cg, snp, rnp, bin_completion wrapped around and ilp failed); bin_completion on named items: since fix F15 (the search runs on the values, the names are put back; formerly known finding KF4) modelled by BC.binCompletionNamed and compared strictly like every other algorithm.", TB),
  "C08": ("proof", "Lean 4 theorems greedy_four_thirds (Graham), kk_four_thirds, greedy/kk/roundrobin_gap, roundrobin_monotone/cards, multifit_ratio_five_fourths, MaxMin5.greedy_maxmin (LPT's exact max-min ratio (3k-1)/(4k-2) for every k) + verified DP oracle for the remaining sharp ratio",
-         "Gap bounds and round-robin structure full; 4/3 - 1/(3k) proved in full for LPT and for Karmarkar-Karp; LPT's exact max-min ratio (3k-1)/(4k-2) (Csirik-Kellerer-Woeginger) proved in full for every k (MaxMin5.greedy_maxmin); PARTIAL only for multifit: proved <= (5/4 + 2^-it) OPT for every k, 1.22 + 2^-it for k <= 8 and for every k when no item lies strictly between 0.22 k/(k-1) OPT and 0.26 OPT (MultiFit122, MultiFit122B); the remaining case is searched for counter-examples with the verified oracle on every run.", TB),
+         "Gap bounds and round-robin structure full; 4/3 - 1/(3k) proved in full for LPT and for Karmarkar-Karp; LPT's exact max-min ratio (3k-1)/(4k-2) (Csirik-Kellerer-Woeginger) proved in full for every k (MaxMin5.greedy_maxmin); PARTIAL only for multifit: proved <= (5/4 + 2^-it) OPT for every k, 1.22 + 2^-it for k <= 11 and for every k when no item lies strictly between 0.22 k/(k-1) OPT and 0.26 OPT (MultiFit122, MultiFit122B, MultiFit122C); the remaining case is searched for counter-examples with the verified oracle on every run.", TB),
  "C09": ("proof", "Lean 4 theorems ff/bf(±decreasing)_anyfit, FF17Abs.ff/bf/gen_seventeen_tenths_plus_6 (<= 1.7 OPT + 0.6), ff/bf_seventeen_tenths_abs_partial, ffd/bfd_three_halves, ffd/bfd_five_fourths, FFD119Gap reduction + verified optBins oracle",
          "Any-fit invariant proved in full for all four heuristics in every arrival order; PARTIAL bounds: FF, BF <= 1.7 OPT + 0.6 for every input, the absolute floor(1.7 OPT) for OPT <= 3, OPT = 0, 3, 6, 9 mod 10 and whenever at most OPT-3 items exceed half the bin size (FF17Abs); FFD, BFD <= 3/2 OPT (absolute) and <= 5/4 OPT + 1, 11/9 OPT + 8/9 outside one range of the size of the last bin's first item, and that range reduced to one statement about normal forms (FFD119Gap); what is not proved of the absolute 1.7 and the 11/9 bounds is searched with the verified oracle on every run.", TB),
  "C10": ("proof", "Lean 4 theorems cover_le_opt, coverDecreasing_half, twoThirds_two_thirds, threeQuarters_three_quarters + verified optCover oracle",
